@@ -553,7 +553,9 @@ int cli::run(size_t argc, const char** argv)
         {
             std::filesystem::path path(*rit);
             path = path.lexically_normal();
-            rvutils::pbo::pbofile pbo(path);
+            // Input archives are only ever read: a path that does not exist is reported, not created
+            rvutils::pbo::pbofile pbo;
+            pbo.open(path);
             if (!pbo.good())
             {
                 std::cout << "Failed to parse PBO '" << path << "'.";
@@ -566,8 +568,8 @@ int cli::run(size_t argc, const char** argv)
                 if (reader.descriptor().size > 0)
                 {
                     std::string conf;
-                    conf.reserve(reader.descriptor().size);
-                    reader.read(conf.data(), conf.capacity());
+                    conf.resize(reader.descriptor().size);
+                    conf.resize(reader.read(conf.data(), conf.size()));
 
                     m_files["config"].push_back([path, conf]() -> std::pair<std::filesystem::path, std::string> { return std::make_pair(path, conf); });
                 }
